@@ -2,7 +2,10 @@
   Driver engine `conc`:
     trace <ev,ev,…>          a goroutine's lock events (acq:muW rel:muR acq:fileW rel:fileW op:<kind> …)
                               → typed=true|false     (the discipline `typedB` of C03)
-    shape <op> <R,W,…|->      mu-level sections of one operation → ok | unexpected   (table of C04)
+    shape <op> <R,W,…|->      mu-level sections of one Fs method, or file-mutex sections ("F") of one handle
+                              method → ok | unexpected   (table of C04)
+  "acq:fileWa"/"rel:fileWa" are file-mutex sections of FileInfo accessors the harness reads without
+  preemption; they count for the discipline and not for the shapes.
   File mutexes carry no identity in the observed trace; consecutive acquire/release pairs are given
   fresh identities (a release matches the most recent unmatched acquire).
 -/
@@ -19,8 +22,8 @@ def toEvs (toks : List String) : List Ev :=
     | "acq:muR" => (acc ++ [.acqMuR], next, open_)
     | "rel:muW" => (acc ++ [.relMuW], next, open_)
     | "rel:muR" => (acc ++ [.relMuR], next, open_)
-    | "acq:fileW" => (acc ++ [.acqF next], next + 1, next :: open_)
-    | "rel:fileW" => match open_ with
+    | "acq:fileW" | "acq:fileWa" => (acc ++ [.acqF next], next + 1, next :: open_)
+    | "rel:fileW" | "rel:fileWa" => match open_ with
       | o :: rest => (acc ++ [.relF o], next, rest)
       | [] => (acc ++ [.relF 1000000], next, [])
     | _ => (acc, next, open_)) ([], 0, [])).1
